@@ -523,6 +523,8 @@ class SInt:
         B = SInt()
         for i, (v, c) in self.t.items():
             q, r = divmod(c, k)
+            if 2 * r > k:             # symmetric remainder keeps the residual's range small
+                q, r = q + 1, r - k
             if q:
                 A.t[i] = (v, q)
             if r:
